@@ -406,26 +406,33 @@ class Bus (objects.DBusObject):
                 owner.busNames[name] = allow_replacement
 
                 return client.NAME_ALREADY_OWNER
-            else:
-                if not replace_existing:
-                    return client.NAME_IN_USE
 
-                if owner.busNames[name]:
-                    del queue[0]
-                    queue.insert(0, caller)
-                    del owner.busNames[name]
-                    caller.busNames[name] = allow_replacement
-                    self.sendSignal(owner, 'NameLost', 's', name)
-                    signalAcq(owner.uniqueName)
-                    return client.NAME_ACQUIRED
-                else:
-                    if do_not_queue:
-                        return client.NAME_IN_USE
+            if replace_existing and owner.busNames[name]:
+                # The caller takes the name over, giving up the place it
+                # may have had in the queue
+                if caller in queue:
+                    queue.remove(caller)
+                queue[0] = caller
+                del owner.busNames[name]
+                caller.busNames[name] = allow_replacement
+                self.sendSignal(owner, 'NameLost', 's', name)
+                signalAcq(owner.uniqueName)
+                return client.NAME_ACQUIRED
 
-                    queue.append(caller)
-                    caller.busNames[name] = allow_replacement
+            if do_not_queue:
+                # A caller that was waiting no longer does
+                if caller in queue:
+                    queue.remove(caller)
+                    del caller.busNames[name]
+                return client.NAME_IN_USE
 
-                    return client.NAME_IN_QUEUE
+            # Wait for the name: each connection at most once, keeping the
+            # place it already has
+            if caller not in queue:
+                queue.append(caller)
+            caller.busNames[name] = allow_replacement
+
+            return client.NAME_IN_QUEUE
 
     def dbus_ReleaseName(self, name, dbusCaller=None):
         caller = self.clients[dbusCaller]
